@@ -29,6 +29,8 @@ pub struct Job {
     /// Stop starting new runs after this many seconds.
     pub soft_deadline_s: f64,
     pub samples_wanted: usize,
+    #[serde(default)]
+    pub record_outputs: bool,
 }
 
 #[derive(Clone, Debug, Serialize, Deserialize)]
@@ -55,6 +57,8 @@ pub struct JobResult {
     pub samples: Vec<Value>,
     pub not_run: Vec<u64>,
     pub wall_s: f64,
+    #[serde(default)]
+    pub outputs: Vec<(u64, Vec<(String, u64)>)>,
 }
 
 pub fn run_seed_for(base_seed: u64, engine: &str, property: &str, index: u64) -> u64 {
@@ -99,6 +103,9 @@ pub fn run_job(job: &Job, engine: &dyn Engine) -> JobResult {
             *res.counters.entry(k.clone()).or_insert(0) += v;
         }
         distinct.extend(ctx.distinct.iter().copied());
+        if job.record_outputs {
+            res.outputs.push((index, ctx.outputs.clone()));
+        }
         if job.digest_mod > 0 && index % job.digest_mod == 0 {
             res.digests.push((index, ctx.log.finish()));
         }
@@ -206,7 +213,7 @@ pub fn worker_main(job_path: &str) -> i32 {
 
 /// Entry point of `rbxsim exec-trace <replay.json>`: executes one trace in
 /// this (fresh) process and prints the violation keys it produced.
-pub fn exec_trace_main(path: &str) -> i32 {
+pub fn exec_trace_main(path: &str, env_override: Option<u64>) -> i32 {
     let text = match std::fs::read_to_string(path) {
         Ok(t) => t,
         Err(e) => {
@@ -221,7 +228,7 @@ pub fn exec_trace_main(path: &str) -> i32 {
             return 2;
         }
     };
-    let env_seed = v["env_seed"].as_u64().unwrap_or(0);
+    let env_seed = env_override.unwrap_or_else(|| v["env_seed"].as_u64().unwrap_or(0));
     let run_seed = v["run_seed"].as_u64().unwrap_or(0);
     let engine_name = v["engine"].as_str().unwrap_or("").to_string();
     let property = v["property"].as_str().unwrap_or("").to_string();
@@ -247,6 +254,9 @@ pub fn exec_trace_main(path: &str) -> i32 {
                     println!("KEY {}", v.key);
                     println!("DETAIL {}", v.detail.replace('\n', " "));
                 }
+            }
+            for (label, d) in &ctx.outputs {
+                println!("OUTPUT {} {:016x}", label, d);
             }
             println!("DIGEST {:016x}", ctx.log.finish());
             println!("DONE");
